@@ -292,13 +292,8 @@ pub fn check_async(sc: &Scenario, b: &BuiltAsync, ao: &AsyncOut, out: &mut Vec<V
                         format!("operation #{}: running() returned false while {} system(s) were inside run and {} of {} system runs of the dispatches issued so far had started", oi, o.active, o.runs, o.dispatched * n_ord),
                     ));
                 }
-                if r && o.finished_at_issue >= o.dispatched {
-                    out.push(vio(
-                        "C15",
-                        "running-stuck-true",
-                        format!("operation #{}: running() returned true although every background job ({}) had already handed its state back", oi, o.dispatched),
-                    ));
-                }
+                // (that running() turns false promptly once everything has finished is not
+                // promised; it is a probe only)
             }
             AOp::Dispatch => {
                 // a second dispatch must not start before the previous one is complete
@@ -333,7 +328,11 @@ pub fn check_async(sc: &Scenario, b: &BuiltAsync, ao: &AsyncOut, out: &mut Vec<V
                 ));
             }
             let got: Vec<usize> = tl_events.iter().map(|e| e.sid as usize).collect();
-            if got != tls {
+            // a wait that no dispatch precedes (since the previous wait) owes the thread-local
+            // systems nothing: running them again (what the library does) and not running them
+            // are both within the statements
+            let since_last_wait = sc.aops[..oi].iter().rev().take_while(|o| **o != AOp::Wait).filter(|o| **o == AOp::Dispatch).count();
+            if got != tls && !(since_last_wait == 0 && got.is_empty()) {
                 let m = format!("operation #{} (wait): thread-local systems that ran: {:?}, registered: {:?}", oi, got, tls);
                 out.push(vio("C15", "wait-tl-mismatch", m.clone()));
                 out.push(vio("C12", if got.len() < tls.len() { "tl-not-run" } else { "tl-order" }, m.clone()));
@@ -559,6 +558,8 @@ pub fn eval_async_on(b: &mut BuiltAsync, sc: &Scenario, strat: &StratSpec, rs: u
     check_deps(&h, infos, &mut out);
     check_barriers(&h, infos, &mut out);
     check_async(sc, b, &ao, &mut out);
+    // systems inside batches: once per inner dispatch (the top-level counts are check_async's)
+    check_counts(sc, &h, infos, &ao.ro, &mut out);
     match &ao.ro.outcome {
         detsim::Outcome::Done => {}
         o => out.push(vio("HARNESS", "outcome", format!("{:?}", o))),
